@@ -15,6 +15,24 @@ CHECKS = {
             "DESIGN.md §3 C02"),
 }
 
+CHECKS.update({
+    "C04": ("exploration",
+            "model-based stateful property testing with fault planting (stale/corrupt cache and mirror entries) and generated read sweeps",
+            "Generated tiered histories x 5 cache strategies x capacities {1,3,64} x hard limits {1,2,8} x persistence, with adversarial pokes through the public cache/mirror handles; every read flavour (7) must equal the reference model of the latest acknowledged write after the generated sweep points; drains/ticks must leave the canonical dump equal to the model; a recovered copy must equal the model. Sampled.",
+            "Sequential only. Trusts HnswBackend's scan/bulk_fetch as the canonical dump. Planted hot-only orphans that a drain repairs into the canonical store (documented behaviour) are adopted by the model and counted as excluded.",
+            "DESIGN.md §3 C04"),
+    "C11": ("exploration",
+            "small-scope exhaustive enumeration + model-based property testing, three-way differential oracle",
+            "Complete enumeration of all filter trees of depth <= 2 over 2 keys x 20 value classes x 4 range operators (107k trees) plus depth-3 trees over a reduced leaf set, on three fixed collections (fresh, churned, compacted+recovered): index result == independent reference semantics == scan with the repo matcher. Plus random histories on a TieredEngine with deep random trees and filtered batch deletes (removed set and count must equal the reference set, nothing else changes).",
+            "The reference semantics are those of DESIGN.md §2.2 (written independently from metadata_filter.rs). The exhaustive part is complete only over its stated finite leaf set.",
+            "DESIGN.md §3 C11"),
+    "C20": ("exploration",
+            "model-based stateful property testing with invariant checks after every step",
+            "Generated tiered histories with capacities {1,2,5}, hard limits {1,2,4}, index capacities {4,6,16,1000}, every strategy: cache sizes <= capacity after every operation and sweep, recent-write tier <= hard limit whenever an insert returns, and full read sweeps equal the reference model (evicted/drained content stays readable). Plus direct operation sequences on VectorCache / QueryHashCache / SemanticAdapter.",
+            "AbTestSplitter owns two caches, bound 2 x capacity. Sampled histories.",
+            "DESIGN.md §3 C20"),
+})
+
 NOT_APPLICABLE = {
 }
 
